@@ -14,7 +14,7 @@ import ast
 from typing import Dict, List, Optional, Set
 
 from ..index import AnalysisError, call_name, norm, norm1
-from ..sem import Sem
+from ..sem import Sem, inline_private_helpers
 from .common import (Frag, calls, const_of, enclosing, enclosing_all, eq_const, fctx, if_chain, imag_unit_sign, in_body, is_name, kwarg,
                      method_calls, pmatch, product_factors, stmts, store_targets)
 
@@ -52,6 +52,9 @@ def run(ctx) -> None:
     ini = cls.methods.get("__init__")
     if callf is None or trf is None or ini is None:
         raise AnalysisError("FFT_R_to_k methods vanished")
+    # statements of private helpers with a simple body are analysed in place (extract-method refactors)
+    callf, trf, ini = (inline_private_helpers(idx, x) for x in (callf, trf, ini))
+    CS = Sem(idx, callf)
     cfg, du, pm = fctx(callf)
     C = Frag(callf)
 
@@ -96,10 +99,13 @@ def run(ctx) -> None:
     box = box_def[0].targets[0].id if len(box_def) == 1 else None
     r1.expect(box is not None, "FFT box located", callf, top, "FFT_R_to_k.__call__: `box = np.zeros(self.NKFFT + …, dtype=complex)` not found in the library branch")
     if box is not None:
-        norm_forms = (f"{box} *= np.prod(self.NKFFT)", f"{box} = {box} * np.prod(self.NKFFT)", f"{box} = np.prod(self.NKFFT) * {box}")
-        mult = [s_ for s_ in fft_body if any(pmatch(s_, p_) and pmatch(s_, p_)[0][0] is s_ for p_ in norm_forms)]
-        trc = [s_ for s_ in fft_body if pmatch(s_, f"self.transform({box})") or pmatch(s_, f"{box} = self.transform({box})")]
-        scal = [s_ for s_ in fft_body if isinstance(s_, ast.AugAssign) and norm(s_.target) == box and isinstance(s_.op, (ast.Mult, ast.Div))]
+        aliases = [box] + [s_.targets[0].id for s_ in fft_body if isinstance(s_, ast.Assign) and isinstance(s_.targets[0], ast.Name) and norm(s_.value) == box]
+        mult, trc, scal = [], [], []
+        for bx in aliases:
+            norm_forms = (f"{bx} *= np.prod(self.NKFFT)", f"{bx} = {bx} * np.prod(self.NKFFT)", f"{bx} = np.prod(self.NKFFT) * {bx}")
+            mult += [s_ for s_ in fft_body if any(pmatch(s_, p_) and pmatch(s_, p_)[0][0] is s_ for p_ in norm_forms)]
+            trc += [s_ for s_ in fft_body if pmatch(s_, f"self.transform({bx})") or pmatch(s_, f"{bx} = self.transform({bx})")]
+            scal += [s_ for s_ in fft_body if isinstance(s_, ast.AugAssign) and norm(s_.target) == bx and isinstance(s_.op, (ast.Mult, ast.Div))]
         r1.check(len(mult) == 1 and len(trc) == 1 and len(scal) <= 1,
                  "library branch: inverse transform × prod(NKFFT) = plain sum over R (net factor 1)", callf, mult[0] if mult else (trc[0] if trc else top),
                  "the FFT branch does not multiply the inverse transform by prod(NKFFT) exactly once: it differs from the explicit sums by a factor N")
@@ -115,11 +121,15 @@ def run(ctx) -> None:
                  and body and s_ in body}
     hform = None
     if len(herm) == 1:
-        for nm in res_names:
-            for p_ in (f"{nm} = 0.5 * ({nm} + {nm}.swapaxes(*self.axes_hermitean).conj())", f"{nm} = ({nm} + {nm}.swapaxes(*self.axes_hermitean).conj()) / 2",
-                       f"{nm} = 0.5 * ({nm} + {nm}.swapaxes(*self.axes_hermitean).conjugate())"):
-                if any(pmatch(x, p_) and pmatch(x, p_)[0][0] is x for x in herm[0].body):
-                    hform = nm
+        for x in herm[0].body:
+            if isinstance(x, ast.Assign) and isinstance(x.targets[0], ast.Name) and x.targets[0].id in res_names:
+                nm = x.targets[0].id
+                rv = CS.resolve(x.value, cfg.node(x))
+                for p_ in (f"0.5 * ({nm} + {nm}.swapaxes(*self.axes_hermitean).conj())", f"({nm} + {nm}.swapaxes(*self.axes_hermitean).conj()) / 2",
+                           f"0.5 * ({nm} + {nm}.swapaxes(*self.axes_hermitean).conjugate())", f"0.5 * ({nm} + np.conj({nm}.swapaxes(*self.axes_hermitean)))"):
+                    m_ = pmatch(rv, p_)
+                    if m_ and m_[0][0] is rv:
+                        hform = nm
     okh = len(herm) == 1 and herm[0] in callf.node.body and callf.node.body.index(herm[0]) > callf.node.body.index(top) and hform is not None \
         if top in callf.node.body else False
     r1.check(okh, "Hermitisation ½(A + A†) follows the branch join (applies to every back end)", callf, herm[0] if herm else top,
@@ -205,8 +215,11 @@ def run(ctx) -> None:
                  f"explicit k-list the stale grid phases exp(2πi dK·R) are multiplied into the k-list transform")
     xp = apf.params[1] if len(apf.params) > 1 else "XX_R"
     ret = [s_ for s_ in stmts(apf.node) if isinstance(s_, ast.Return) and s_.value is not None and norm(s_.value) != xp]
-    okm = len(ret) == 1 and bool(pmatch(ret[0].value, f"{xp} * self.expdK.reshape(ANY)") or pmatch(ret[0].value, f"self.expdK.reshape(ANY) * {xp}")) \
-        and isinstance(ret[0].value, ast.BinOp)
+    AS = Sem(idx, apf)
+    rv_ = AS.resolve(ret[0].value, AS.cfg.node(ret[0])) if len(ret) == 1 else None
+    okm = rv_ is not None and isinstance(rv_, ast.BinOp) and isinstance(rv_.op, ast.Mult) and (
+        (norm(rv_.left) == xp and bool(pmatch(rv_.right, "self.expdK.reshape(ANY)")) and pmatch(rv_.right, "self.expdK.reshape(ANY)")[0][0] is rv_.right) or
+        (norm(rv_.right) == xp and bool(pmatch(rv_.left, "self.expdK.reshape(ANY)")) and pmatch(rv_.left, "self.expdK.reshape(ANY)")[0][0] is rv_.left))
     ed = [s_ for s_ in ast.walk(setf.node) if isinstance(s_, ast.Assign) and norm(s_.targets[0]) == "self.expdK"]
     oke = len(ed) == 1 and _sign_of_2pi_i(ed[0].value) == +1 and bool(
         pmatch(ed[0].value, "self.iRvec.dot(self.dK)") or pmatch(ed[0].value, "self.iRvec @ self.dK") or pmatch(ed[0].value, "np.dot(self.iRvec, self.dK)"))
@@ -236,8 +249,25 @@ def run(ctx) -> None:
     r4.instance(rk.short)
     K = Frag(rk)
     xr, derp, hp2 = rk.params[1:4]
-    okr = bool(K.find(f"for i in range({derp}):\n    {xr} = self.derivative({xr})")) and \
-        bool(K.find(f"return self.fft_R_to_k({xr}, hermitian={hp2})") or K.find(f"return self.fft_R_to_k({xr}, {hp2})"))
+    KS = Sem(idx, rk)
+    lps = [l for l in stmts(rk.node) if isinstance(l, ast.For) and norm(l.iter) == f"range({derp})" and len(l.body) == 1]
+    okr = False
+    if len(lps) == 1:
+        m_ = pmatch(lps[0].body[0], "V_ = self.derivative(V_)", {"V_"})
+        if m_ and m_[0][0] is lps[0].body[0]:
+            v_ = m_[0][1]["V_"]
+            init = [d for d in KS.du.reaching(v_, KS.cfg.node(lps[0])) if d.kind != "assign" or d.stmt is not lps[0].body[0]]
+            init_ok = v_ == xr or all(d.kind == "assign" and d.value is not None and norm(d.value) in (xr, f"{xr}.copy()") for d in init if d.stmt is not lps[0].body[0])
+            rets_ = [s_ for s_ in stmts(rk.node) if isinstance(s_, ast.Return) and s_.value is not None]
+            if len(rets_) == 1 and init_ok:
+                rv2 = rets_[0].value
+                while isinstance(rv2, ast.Name):
+                    d2 = KS.du.single_def(rv2.id, KS.cfg.node(rets_[0]))
+                    if d2 is None or d2.kind != "assign":
+                        break
+                    rv2 = d2.value
+                okr = isinstance(rv2, ast.Call) and norm(rv2.func) == "self.fft_R_to_k" and rv2.args and norm(rv2.args[0]) == v_ and \
+                    kwarg(rv2, "hermitian", 1) is not None and norm(kwarg(rv2, "hermitian", 1)) == hp2
     r4.check(okr, "R_to_k applies the derivative `der` times, then one transform", rk, rk.node,
              "R_to_k no longer applies `der` derivative factors before a single transform", stmt="R_to_k")
     hdef = None
@@ -266,6 +296,9 @@ def run(ctx) -> None:
     xc = [c for c in method_calls(xb.node, "_R_to_k_H")] or [c for c in method_calls(xb.node, "R_to_k")]
     r4.expect(len(xc) == 1, "Xbar transform located", xb, xb.node, "Data_K_R.Xbar: the _R_to_k_H / R_to_k call was not found")
     hv = kwarg(xc[0], "hermitian", 2) if xc else None
+    if hv is not None:
+        XS = Sem(idx, xb)
+        hv = XS.resolve(hv, XS.du.node_of_expr(xc[0]))
     hset = None
     if isinstance(hv, ast.Compare) and len(hv.ops) == 1 and isinstance(hv.ops[0], ast.In) and isinstance(hv.comparators[0], (ast.List, ast.Tuple, ast.Set)):
         hset = sorted(const_of(e) for e in hv.comparators[0].elts)
@@ -282,9 +315,18 @@ def run(ctx) -> None:
                  or pmatch(fnp.node, f"if not {invp}:\n    return np.fft.fftn(ANY, axes=ANY)\nelse:\n    return np.fft.ifftn(ANY, axes=ANY)")
                  or pmatch(fnp.node, f"return np.fft.ifftn(ANY, axes=ANY) if {invp} else np.fft.fftn(ANY, axes=ANY)")
                  or (pmatch(fnp.node, f"if {invp}:\n    return np.fft.ifftn(ANY, axes=ANY)") and pmatch(fnp.node, "return np.fft.fftn(ANY, axes=ANY)")))
+    if not np_ok:
+        NS = Sem(idx, fnp)
+        for r_ in [s_ for s_ in stmts(fnp.node) if isinstance(s_, ast.Return) and isinstance(s_.value, ast.Call)]:
+            fr = NS.resolve(r_.value.func, NS.cfg.node(r_))
+            if pmatch(fr, f"np.fft.ifftn if {invp} else np.fft.fftn") or pmatch(fr, f"np.fft.fftn if not {invp} else np.fft.ifftn"):
+                np_ok = kwarg(r_.value, "axes", 1) is not None
     r5.instance(fw.short)
     wp = [c for c in ast.walk(fw.node) if isinstance(c, ast.Call) and call_name(c) == "pyfftw.FFTW"]
     dv_ = kwarg(wp[0], "direction") if len(wp) == 1 else None
+    if dv_ is not None:
+        WS = Sem(idx, fw)
+        dv_ = WS.resolve(dv_, WS.du.node_of_expr(wp[0]))
     w_ok = dv_ is not None and bool(pmatch(dv_, f"'FFTW_BACKWARD' if {invp} else 'FFTW_FORWARD'") or pmatch(dv_, f"'FFTW_FORWARD' if not {invp} else 'FFTW_BACKWARD'"))
     r5.expect(len(wp) == 1, "pyfftw plan of fft_W located", fw, fw.node, "fft_W: pyfftw.FFTW(…) not found")
     r5.check(np_ok and w_ok, "both wrappers: inverse ⇒ backward (ifftn), otherwise forward (fftn)", fw, wp[0] if wp else fw.node,
